@@ -1,6 +1,7 @@
 // probe_xcp: a library client of libxcp, written the way the crate documentation shows.
 //
 //   probe_xcp <driver> <updater> <mode> <workers> <block_size> [--flag ...] -- <src>... <dest>
+//     flags include: --vanish <size> <path>  (delete <path> when a Size update of exactly <size> arrives)
 //     updater: channel | noop | record        mode: live (drain while copying) | after (drain once copy() returned)
 //
 // Every update the client sees is (a) printed to stdout as one JSON line, in the order seen, and (b) announced
@@ -42,6 +43,22 @@ impl StatusUpdater for Recorder {
     }
 }
 
+// A client-side updater that removes one source file the moment its size is announced (a file vanishing from a
+// live tree between the walk and the copy), then forwards the update.
+struct Vanisher { inner: Arc<dyn StatusUpdater>, size: u64, path: PathBuf }
+
+impl StatusUpdater for Vanisher {
+    fn send(&self, update: StatusUpdate) -> Result<()> {
+        if let StatusUpdate::Size(v) = &update {
+            if *v == self.size {
+                let _ = std::fs::remove_file(&self.path);
+                marker("V vanished");
+            }
+        }
+        self.inner.send(update)
+    }
+}
+
 fn main() {
     let a: Vec<String> = env::args().collect();
     if a.len() < 8 { eprintln!("usage"); exit(2); }
@@ -52,8 +69,10 @@ fn main() {
     config.workers = a[4].parse().unwrap();
     config.block_size = a[5].parse().unwrap();
     let mut i = 6;
+    let mut vanish: Option<(u64, PathBuf)> = None;
     while i < a.len() && a[i] != "--" {
         match a[i].as_str() {
+            "--vanish" => { vanish = Some((a[i + 1].parse().unwrap(), PathBuf::from(&a[i + 2]))); i += 2; }
             "--no-clobber" => config.no_clobber = true,
             "--gitignore" => config.gitignore = true,
             "--fsync" => config.fsync = true,
@@ -81,6 +100,11 @@ fn main() {
         "channel" => { let u = ChannelUpdater::new(&config); rx = Some(u.rx_channel()); Arc::new(u) }
         "noop" => Arc::new(NoopUpdater),
         _ => recorder.clone(),
+    };
+
+    let stats: Arc<dyn StatusUpdater> = match vanish {
+        Some((size, path)) => Arc::new(Vanisher { inner: stats, size, path }),
+        None => stats,
     };
 
     let mut handle = Some(thread::spawn(move || drv.copy(sources, &dest, stats)));
